@@ -15,13 +15,16 @@ def lower_insts(g):
 
 
 def after_prepop(c, g, tree):
-    """give every pre-populated lower entry an explicit access time, then record the lower layers
+    """give every pre-populated lower entry explicit access, modification and creation times, then record the lower layers
     without opening any file"""
     for (inst, sub) in g.prepop:
         base = sub[1:] + "/" if sub else ""
         for p in sorted(tree.dirs | set(tree.files)):
             if p:
+                # all three timestamps explicit: a "now" that replaces a "now" would be invisible
                 c.op("setatime", vfx.ps(inst, base + hist.rel(p)), ATIME)
+                c.op("setmtime", vfx.ps(inst, base + hist.rel(p)), ATIME - 1_000_000_000)
+                c.op("setctime", vfx.ps(inst, base + hist.rel(p)), ATIME - 2_000_000_000)
     c.first_tree = {}
     for i in lower_insts(g):
         c.first_tree[i] = c.op("tree", i)
@@ -116,7 +119,7 @@ def known(d):
 P = histprop.HistProp(
     "C08", CONFIGS, typed=False, with_times=True, project=project, want_logs=True, quick_cases=8, thorough_cases=100, nops=(8, 18),
     oracle=oracle, known=known, after_prepop=after_prepop, finish=finish, allow_big=False, prepop_density=0.7,
-    corpus_cases=lambda: hist.lower_only_cases("c08", ["ovl_mm", "ovl_mmm", "ovl_pp", "ovl_alt", "ovl_lo_ovl"]),
+    corpus_cases=lambda: hist.lower_only_cases("c08", ["ovl_mm", "ovl_mmm", "ovl_pp", "ovl_alt", "ovl_lo_ovl"], stamp=True),
     rule=("DIRECTED: every one-path operation on a non-empty directory, a file, an empty directory and a nested directory "
           "that ONLY a lower layer holds, on five stackings - among them an overlay whose lower layer is itself an overlay, on "
           "which a wrongly routed remove_file of a directory would SUCCEED; RANDOM: untyped histories (successful and failing calls alike) through overlays of 2-3 memory/physical layers, layers that "
